@@ -65,7 +65,9 @@ TABLE_OBLIGATIONS = [
     "Ural.Props.C03.escape_recognisers_agree",
     # Props/C03Requote.lean: UNSAFE_FOR_* vs the regenerated safe set of safely_quote
     "Ural.Props.C03.quote_safe_set_model",
+    "Ural.Props.C03.qsl_quote_safe_set_model",
     "Ural.Props.C03.unsafe_sets_requote_safe",
+    "Ural.Props.C03.plus_is_not_percent_2b",
 ]
 RULE = (
     "A case is a collision class: [stream 'inv', harness/c03_invisible.py, right after the corpus] a control / "
@@ -129,7 +131,9 @@ UNPROVED = (
     "KF-C02-1 family, which really fails (witness in Props/C03.lean, KF-C03-4); QuotedClean reads the regenerated unsafe sets, so "
     "Props/C03Requote.lean derives it from a FIXED exclusion (QuotedDelimFree: no raw '=' inside a query value, no raw '#' in "
     "the query, '?'/'#' in the path, no control character) through the table obligation unsafe_sets_requote_safe (every byte "
-    "of UNSAFE_FOR_PATH / _QUERY_ITEM / _FRAGMENT is in the regenerated safe set of safely_quote, or is the space / '%', or a "
+    "of UNSAFE_FOR_PATH / _QUERY_ITEM / _FRAGMENT is in the regenerated safe set of the quoting step of its component - safely_quote, and "
+    "for a query item safely_quote_qsl, which since FX-C01-6e09416 quotes with safe='/+' so that '+', now in UNSAFE_FOR_QUERY_ITEM, is left alone "
+    "(qsl_quote_safe_set_model, plus_is_not_percent_2b) -, or is the space / '%', or a "
     "delimiter of its component) and restates (c1)/(a) under it (normalize_canonicalize_quoted_partial, "
     "normalize_of_canon_eq_quoted_partial): a table edit cannot widen the exclusion, it breaks the obligation - for paths that are empty or absolute "
     "(every URL with an authority), under PunyLaws (PathHyp - three normpath facts - is discharged from "
@@ -305,6 +309,12 @@ CORPUS = [
     ["a.com/Index.html", "a.com/Index.html/index.html"],
     ["http://a.com/x%E3%80%80"],
     ["a.com?k=a=b&k=a5"],
+    # FX-C01-6e09416 ('+' is a space in a query, %2B a plus sign: two canonical forms, in both modes) and the half
+    # fix that seeded change C03-4 makes ('+' unsafe for the unquoter while safely_quote still escapes it): the
+    # sibling item sorts between '%' and '+'
+    ["http://a.com/s?tag=rock+roll&tag=rock'n'roll", "http://a.com/s?tag=rock%2Broll&tag=rock'n'roll"],
+    ["http://a.com/?a+b=1&a*b=2", "http://a.com/?a%2Bb=1&a*b=2", "http://a.com/?a%2bb=1&a*b=2"],
+    ["http://a.com/p?a=%2B&b=+", "http://a.com/p?b=+&a=%2B"],
     # FX-C02-f918741 (formerly KF-C03-5): unknown scheme + empty authority
     ["localhost://?a", "custom:///p"],
     # cleaning order: control characters go first, then the surrounding whitespace
